@@ -21,4 +21,8 @@ def run (s : MState) (ops : List MapOp) : MState := ops.foldl step s
 /-- the keys of the underlying dict, in insertion order -/
 def keys (n : Node) : List Str := n.kids.map Node.key
 
+/-- the hypothesis of the key theorems (`FieldsNodup`: the class declares every field name once), as a
+    Boolean the runner reports beside every trace — the implementation reports the same of the real class -/
+def fieldsNodupB (s : Schema) : Bool := decide ((s.subs.map Schema.key).Nodup)
+
 end Flatland.C10
